@@ -205,6 +205,30 @@ class Poly(object):
             return self.scale(other.const_value())
         if self.is_const():
             return other.scale(self.const_value())
+        a, b = self.terms, other.terms
+        if len(a) == 1 or len(b) == 1:
+            if len(b) == 1:
+                a, b = b, a
+            (m1, c1), = a.items()
+            out = {}
+            if len(m1) == 1:
+                s = m1[0]
+                for m2, c2 in b.items():
+                    # insert s into the sorted tuple m2
+                    i = 0
+                    n = len(m2)
+                    while i < n and m2[i] <= s:
+                        i += 1
+                    m = m2[:i] + m1 + m2[i:]
+                    c = c2 if c1 == 1 else c1 * c2
+                    out[m] = c
+            else:
+                for m2, c2 in b.items():
+                    m = tuple(sorted(m1 + m2)) if m2 else m1
+                    out[m] = c1 * c2
+            if c1 == 1 or isinstance(c1, int):
+                return Poly(out)
+            return Poly({m: _norm(c) for m, c in out.items()})
         out = {}
         for m1, c1 in self.terms.items():
             for m2, c2 in other.terms.items():
